@@ -27,6 +27,9 @@ def templates():
          'a = { PEEK<P>[1..] }', 'a = { PUSH<P>(b) }', 'a = { PEEK[1<P>..2] }',
          # non-ASCII text before the place of the error (the reported column is a character count)
          "a = { 'éé'<P> }", 'a = { "日本語"<P> }', 'a = { "日本語"* ~ ("z"?)<P> }', '/*é\r*/ a = {<P>', 'é = { "x" }<P>', 'a = { "é" ~ b<P> }\nb = { "ü"<P> }', '// é\na = { "x" <P>',
+         # several errors at once (the error list is sorted and merged): every pair of kinds of the AST-validation stage
+         'a = { "x"{3, 2} ~ ("" | "y") }', 'a = { "x"{<H>,<H>} }\nb = { a{5, 1} ~ (""*)<P> }', 'a = { a ~ "x" }\nb = { "y"{2, 1}<P> }', 'a = { ("" | "x") ~ (""*) }\nb = { b<P> }',
+         'a = { (!"x")* ~ ("x" | "") ~ a? }\nWHITESPACE = { ""<P> }', 'COMMENT = { "x"* }\na = { a{<H>} | ("a" | "a"*)+ }', 'a = { b{<H>,1} ~ b{1,<H>} }\nb = { "x"? }',
          # concrete near-misses (no hole): out-of-range numbers
          'a = { PEEK[99999999999..] }', 'a = { PEEK[..-99999999999] }', 'a = { b{99999999999} }', 'a = { b{1,99999999999} }', 'a = { b{4294967296,} }', "a = { '\\u{110000}'..'z' }", 'a = { "\\u{D800}" }', 'a = { b{2,1} }', 'a = { b{0} }']
     out = []
